@@ -22,6 +22,8 @@ type exprCtx struct {
 	depth    int
 	inline   bool // render calls to module functions by name only (never descend)
 	visiting map[ssa.Value]bool
+	sub      map[ssa.Value]ssa.Value // parameters of an inlined expression helper → the caller's arguments
+	parent   *exprCtx                // context those arguments are rendered in
 }
 
 func (c *Ctx) newExpr(fn *ssa.Function) *exprCtx {
@@ -43,6 +45,9 @@ func (e *exprCtx) render(v ssa.Value, depth int) string {
 	}
 	if n, ok := e.names[v]; ok {
 		return n
+	}
+	if r, ok := e.sub[v]; ok && e.parent != nil {
+		return e.parent.render(r, depth)
 	}
 	if depth == 0 {
 		return "…"
@@ -86,9 +91,9 @@ func (e *exprCtx) render(v ssa.Value, depth int) string {
 	case *ssa.ChangeInterface:
 		return e.render(x.X, depth)
 	case *ssa.ChangeType:
-		return fmt.Sprintf("conv<%s>(%s)", shortType(x.Type()), e.render(x.X, depth-1))
+		return e.renderConv(x.Type(), x.X, depth)
 	case *ssa.Convert:
-		return fmt.Sprintf("conv<%s>(%s)", shortType(x.Type()), e.render(x.X, depth-1))
+		return e.renderConv(x.Type(), x.X, depth)
 	case *ssa.UnOp:
 		if isBoolType(x.Type()) && x.Op == token.NOT {
 			return e.boolString(v, depth)
@@ -235,6 +240,11 @@ func (e *exprCtx) renderCall(x *ssa.Call, depth int) string {
 		name = b.Name()
 		args = cc.Args
 	} else if f := cc.StaticCallee(); f != nil {
+		// a one-line expression helper of the module (no branches, no stores, no receiver state):
+		// rendered as the expression it returns, with its parameters replaced by the arguments
+		if s, ok := e.inlineExprHelper(f, cc.Args, depth); ok {
+			return s
+		}
 		name = f.Name()
 		if o := f.Object(); o != nil && o.Pkg() != nil && e.c.relPkg(o.Pkg()) == "" {
 			name = o.Pkg().Name() + "." + name
@@ -414,4 +424,88 @@ func (e *exprCtx) boolString(v ssa.Value, depth int) string {
 		return "B[" + strings.Join(names, ";") + "]:" + string(canon)
 	}
 	return "boolopaque(atoms)"
+}
+
+// inlineExprHelper: f is a module function consisting of a single block that computes one result from
+// its parameters by pure operations (arithmetic, conversions, calls outside the module).
+func (e *exprCtx) inlineExprHelper(f *ssa.Function, args []ssa.Value, depth int) (string, bool) {
+	if e.inline || !e.c.InModule(f) || len(f.Blocks) != 1 || f.Signature.Recv() != nil || f.Signature.Results().Len() != 1 || len(f.Params) != len(args) || depth < 2 {
+		return "", false
+	}
+	var ret *ssa.Return
+	for _, in := range f.Blocks[0].Instrs {
+		switch t := in.(type) {
+		case *ssa.BinOp, *ssa.UnOp, *ssa.Convert, *ssa.ChangeType, *ssa.DebugRef:
+			if u, ok := in.(*ssa.UnOp); ok && u.Op == token.MUL {
+				return "", false // a load: not a pure function of the parameters
+			}
+		case *ssa.Call:
+			g := t.Call.StaticCallee()
+			if g == nil || e.c.InModule(g) {
+				return "", false
+			}
+		case *ssa.Return:
+			ret = t
+		default:
+			return "", false
+		}
+	}
+	if ret == nil || len(ret.Results) != 1 {
+		return "", false
+	}
+	sub := &exprCtx{c: e.c, fn: f, names: map[ssa.Value]string{}, inline: true, sub: map[ssa.Value]ssa.Value{}, parent: e}
+	for i, p := range f.Params {
+		sub.sub[p] = args[i]
+	}
+	return sub.render(ret.Results[0], depth-1), true
+}
+
+// signedIntWidth: byte width of a signed integer type (int counts as 8: the widest it can be).
+func signedIntWidth(t types.Type) (int, bool) {
+	b, ok := t.Underlying().(*types.Basic)
+	if !ok {
+		return 0, false
+	}
+	switch b.Kind() {
+	case types.Int8:
+		return 1, true
+	case types.Int16:
+		return 2, true
+	case types.Int32:
+		return 4, true
+	case types.Int, types.Int64:
+		return 8, true
+	}
+	return 0, false
+}
+
+// renderConv renders conv<T>(y); conv<T>(conv<U>(y)) = conv<T>(y) when the inner step is a lossless
+// signed widening (or a change between types of the same representation).
+func (e *exprCtx) renderConv(t types.Type, inner ssa.Value, depth int) string {
+	ctx := e
+	for {
+		if r, ok := ctx.sub[inner]; ok && ctx.parent != nil {
+			inner, ctx = r, ctx.parent
+			continue
+		}
+		var src ssa.Value
+		var mid types.Type
+		switch ic := inner.(type) {
+		case *ssa.Convert:
+			src, mid = ic.X, ic.Type()
+		case *ssa.ChangeType:
+			src, mid = ic.X, ic.Type()
+		}
+		if src == nil {
+			break
+		}
+		ws, okS := signedIntWidth(src.Type())
+		wu, okU := signedIntWidth(mid)
+		_, okT := signedIntWidth(t)
+		if !(okS && okU && okT && wu >= ws) {
+			break
+		}
+		inner = src
+	}
+	return fmt.Sprintf("conv<%s>(%s)", shortType(t), ctx.render(inner, depth-1))
 }
